@@ -523,15 +523,40 @@ fn ob_c11_leaf_class_negated(x: bool) {
 //@ob C11.leaf.class.range
 //@ props: C11 C05
 //@ kind: complete
-//@ tier: thorough
+//@ unwind: 6
 //@ fns: src/token/mod.rs::Archetype::term<Text>
-//@ pre: a range archetype with any two distinct end points (all char x char)
-//@ post: it reports variant text (a range of more than one character matches two different paths)
+//@ pre: a range archetype with any two distinct end points, in either order (all char x char)
+//@ post: it reports variant text (a range of more than one character matches two different paths; a reversed range never matches and must not report invariant text either)
 fn ob_c11_leaf_class_range(a: char, b: char) {
     vassume!(a != b);
     vcover!(a > b);
+    vcover!(a < b);
     let range = Archetype::Range(a, b);
-    assert!(VarianceTerm::<Text>::term(&range).is_variant(), "C11 a range of more than one character is variant");
+    let term = VarianceTerm::<Text>::term(&range);
+    let variant = term.is_variant();
+    core::mem::forget(term); // no VecDeque<Cow<str>> drop glue in the goto program (measured: 1.6 s vs no verdict in 1500 s)
+    assert!(variant, "C11 a range of more than one character is variant");
+}
+
+//@ob C11.leaf.class.single
+//@ props: C11 C05
+//@ kind: complete
+//@ unwind: 6
+//@ fns: src/token/mod.rs::Archetype::term<Text> src/token/mod.rs::Class::term<Text> src/token/mod.rs::Class::fold
+//@ pre: a non-negated class with exactly one archetype: a character c, or a range a-b (all of char)
+//@ post: on a case-sensitive platform it reports invariant text exactly when it lists one character (c, or a-a); with a != b it is variant -- a class that can match two different characters never reports invariant text
+fn ob_c11_leaf_class_single(is_range: bool, a: char, b: char) {
+    let archetype = if is_range { Archetype::Range(a, b) } else { Archetype::Character(a) };
+    let class = Class { is_negated: false, archetypes: vec![archetype] };
+    vcover!(is_range && a == b);
+    vcover!(is_range && a != b);
+    vcover!(!is_range);
+    let term = VarianceTerm::<Text>::term(&class);
+    let invariant = term.is_invariant();
+    core::mem::forget(term);
+    core::mem::forget(class);
+    let one_character = !is_range || a == b;
+    assert!(invariant == (one_character && !PATHS_ARE_CASE_INSENSITIVE), "C11 a class is invariant exactly when it can match a single character");
 }
 
 fn literal_casing(n: u8, b1: u8, b2: u8, flag: bool) {
